@@ -21,6 +21,13 @@ RULE = ('differential: a chain of 2-4 connect() calls on ONE WebSocket '
         'plus pairwise different keys.  Non-trivial = the last connection '
         'reached Ready; distinct = distinct (ending kinds, last-script '
         'layout) signatures')
+RULE += (' '
+         'Abandonment mechanisms: break, raise, close(), rebind (new '
+         'generator before the old one is released) and hold (old generator '
+         'released at an event of the last connection); earlier connections '
+         'may negotiate other deflate parameters or decline; the last '
+         'connection may be closed by the application between Connected and '
+         'Ready with a server that never answers.')
 SHRINK_LISTS = [('prev',), ('items',)]
 EXPECTED_PROBES = ['prev_mid_http', 'prev_mid_frame_header', 'prev_mid_ext_len',
                    'prev_mid_payload', 'prev_mid_fragment_text',
